@@ -558,6 +558,15 @@ def compare_model(ck, pending, results):
 # ---------------------------------------------------------------------------
 
 
+def observe_unknown_parameter_name(ck):
+    """a keyword that names no parameter of the family, passed to cdf/icdf/pdf: C05 quantifies over the family's own
+    parameters, so the outcome class gets NO verdict; the path is executed and counted"""
+    for name, cls, params in TABLES["families"]:
+        for meth in METHS:
+            _, exc = call(cls(), meth, 0.5, nosuch=1.5)
+            ck.count("observed_no_verdict:unknown_parameter_name:" + (exc.split(":")[0] if exc else "accepted"))
+
+
 def corpus_cases():
     """witnesses of DESIGN section 4 #1 and #12 (corpus/C05/*.json, run first)"""
     import glob
@@ -617,6 +626,7 @@ def main(ck):
             explore_case(ck, name, theta, theta0, jobs, pending)
     results = model_values(ck, jobs)
     compare_model(ck, pending, results)
+    observe_unknown_parameter_name(ck)
     ck.extra["exhaustive"] = False
     ck.extra["generated_rows"] = {k: len(TABLES[k]) for k in ("get", "ctor", "cond", "fit", "lsq")}
     ck.extra["generated_rows_exhaustive"] = True
